@@ -2,7 +2,13 @@
 
 proof   : lean/GeosModel/Props/C07.lean (the ported filter + double-double orientation, ray-crossing counter,
           computeIntersect and isCCW models equal the exact integer specifications on the 2^25 grid)
-tie     : correspondence — harness/c07.cpp runs generated lattice inputs (n * 2^k, |n| <= 2^25) through the real
+tie     : translator — translate/cxx2lean.py (spec kernel_c07) regenerates lean/GeosModel/Generated/KernelC07.lean from the
+          current text of countSegment / getLocation / isPointInPolygon, the loops of locatePointInRing / isOnLine /
+          locatePointInSurface, Envelope::intersects, isOnSegment, Orientation::index,
+          orientationIndexFilter, DD::selfAdd / selfMultiply / operators, OrientationDD, CGAlgorithmsDD::orientationIndex,
+          computeIntersect / computeCollinearIntersection; lean/GeosModel/Props/C07Gen.lean proves each equal to the
+          hand-written model the theorems are about (every run);
+          correspondence — harness/c07.cpp runs generated lattice inputs (n * 2^k, |n| <= 2^25) through the real
           functions (C++ API and C API) and `drv_c07` answers with the exact specification; an extra stream feeds
           arbitrary finite doubles to the orientation predicate and is answered by the bit-level model.
 On the grid streams the driver's answer *is* the specification, so a differing token there is a concrete failing
@@ -14,6 +20,7 @@ from verif import log
 LEVEL = "proof"
 PROPS = ["GeosModel.Props.C07"]
 DRV = "drv_c07"
+GENS = [("kernel_c07", "GeosModel/Generated/KernelC07.lean", "GeosModel.Props.C07Gen")]
 
 QUICK = [("orient", 400000), ("orientarb", 150000), ("orientf", 50000), ("ring", 200000), ("poly", 150000), ("segseg", 250000), ("ccw", 100000)]
 # thorough: ~75x quick; measured ~8 us/line (orient), ~25 us/line (orientarb), ~12 us/line (ring), ~7 us/line (segseg),
@@ -94,7 +101,7 @@ def make_ring_case(head, pt, verts):
 def shrink_ring(exe, stream, case, idx):
     """drop interior vertices while the same token keeps differing; the ring stays closed.  The ring is
     relabelled simple=0 (dropping vertices may destroy simplicity), so only tokens valid for any ring are shrunk."""
-    limit = 3 if stream == "ring" else 2
+    limit = 4 if stream == "ring" else 2
     if idx < 0 or idx >= limit:
         return None
     try:
@@ -252,12 +259,13 @@ def handle_exact_stream(ctx, exe, stream, disagreements):
 
 def run(ctx):
     ctx.base_trust([
-        "hand-written Lean models of orientationIndexFilter / double-double orientationIndex, RayCrossingCounter::countSegment, LineIntersector::computeIntersect, Orientation::isCCW (lean/GeosModel/Model/Kernel/*)",
+        "hand-written Lean models of orientationIndexFilter / double-double orientationIndex, RayCrossingCounter::countSegment, LineIntersector::computeIntersect, Orientation::isCCW (lean/GeosModel/Model/Kernel/*); all but isCCW, the indexed locator and the DD intersection point are proved equal to the definitions regenerated from the current C++ (Props/C07Gen.lean)",
+        "translate/cxx2lean.py + translate/specs/kernel_c07.py (statement-by-statement translation of the C++ fragment; Z/M bookkeeping of LineIntersector dropped; constructors of DD / CoordinateXY stated by hand after a text check); reading of a C++ double operation as rnd(exact operation) (Model/Kernel/CxxDy.lean), decimal literals by correct rounding",
         "doubles are brought to integers over one common power of two by F64.scaleAll before the exact specification is evaluated",
         "roundNE models IEEE binary64 round-to-nearest-even without overflow / underflow (inputs are kept inside the range where none occurs)",
         "the harness and its generators (harness/c07.cpp): lattice inputs n*2^k with |n| <= 2^25, k in [-500,474]; one stream of arbitrary finite doubles",
     ])
-    proved = ctx.prove(PROPS, extra_targets=(DRV,))
+    proved = ctx.prove_generated(GENS, PROPS, extra_targets=(DRV,))
     ok, out = verif.build_geos("rel")
     if not ok:
         ctx.violation("GEOS does not build with -DGEOS_VERIF", {"kind": "build-failure", "log": out[-3000:]}, nofail=True)
